@@ -261,6 +261,7 @@ impl Transport for LocalTransport {
                     "Sparse file detected ({}), using sparse-aware copy",
                     source.display()
                 );
+                break_unshared_hard_link(&source, &dest);
                 let bytes_written = fs::copy(&source, &dest).map_err(|e| SyncError::CopyError {
                     path: source.clone(),
                     source: e,
@@ -298,6 +299,7 @@ impl Transport for LocalTransport {
             // - Linux: copy_file_range() for zero-copy (kernel-side)
             // - Fallback: sendfile() or read/write
             // This is MUCH faster than manual read/write loop
+            break_unshared_hard_link(&source, &dest);
             let bytes_written = fs::copy(&source, &dest).map_err(|e| SyncError::CopyError {
                 path: source.clone(),
                 source: e,
@@ -421,6 +423,7 @@ impl Transport for LocalTransport {
                 );
 
                 // Use SEEK_HOLE/SEEK_DATA to preserve sparseness
+                break_unshared_hard_link(&source, &dest);
                 let bytes_written = copy_sparse_file(&source, &dest).map_err(|e| SyncError::CopyError {
                     path: source.clone(),
                     source: e,
@@ -469,6 +472,7 @@ impl Transport for LocalTransport {
                         );
 
                         // Fallback to full copy (not sparse, so fs::copy is fine)
+                        break_unshared_hard_link(&source, &dest);
                         let bytes_written = fs::copy(&source, &dest).map_err(|e| SyncError::CopyError {
                             path: source.clone(),
                             source: e,
@@ -956,6 +960,22 @@ impl Transport for LocalTransport {
 
     async fn read_link(&self, path: &Path) -> Result<Option<std::path::PathBuf>> {
         Ok(tokio::fs::read_link(path).await.ok())
+    }
+}
+
+/// Break a destination hard link that the source does not share
+///
+/// Rewriting `dest` in place would also rewrite every other name of its inode.
+/// When the source file has a single name, those other destination names are
+/// unrelated files (e.g. the link was broken in the source since the last sync
+/// with -H), so `dest` is replaced rather than written through.
+fn break_unshared_hard_link(source: &Path, dest: &Path) {
+    if has_hard_links(dest) && !has_hard_links(source) {
+        if let Ok(meta) = fs::symlink_metadata(dest) {
+            if meta.is_file() {
+                let _ = fs::remove_file(dest);
+            }
+        }
     }
 }
 
